@@ -197,11 +197,17 @@ func clientSideCheck(c *chk.Ctx, enforce string, realResponses []*ceResp) {
 			r.body = []byte(`[1,2,{"message":"x"}]`)
 		case "bignum":
 			r.body = []byte(`{"id":"x","n":1e999,"message":123456789012345678901234567890}`)
+		case "space":
+			r.body = []byte(" ")
+		case "newline":
+			r.body = []byte("\n")
+		case "crlf":
+			r.body = []byte("\r\n\r\n")
 		case "randombytes":
 			r.body = make([]byte, 16+rnd.Intn(200))
 			rnd.Read(r.body)
 		}
-		wellFormed := map[string]bool{"ve": true, "ve0": true, "err": true, "custom": true, "text": true, "html": true, "empty": true}
+		wellFormed := map[string]bool{"ve": true, "ve0": true, "err": true, "custom": true, "text": true, "html": true, "empty": true, "space": true, "newline": true, "crlf": true}
 		r.judge = wellFormed[cc.Body] && (cc.Ctype == "json" || cc.Ctype == "proto" || cc.Ctype == "jsoncharset") &&
 			!(class == "proto" && (cc.Body == "text" || cc.Body == "html")) && cc.Status != 301
 		resps = append(resps, r)
